@@ -2,6 +2,7 @@ package rules
 
 import (
 	"fmt"
+	"go/constant"
 	"go/types"
 	"sort"
 	"strings"
@@ -73,6 +74,10 @@ func (c *Ctx) c17IndexAgreement() {
 	r.Rule("R17.6", "index -> record key agreement: the ids listed in an id index (an ordered map stored under IndexKey(x), e.g. the admins of an appchain) name records of one collection; every place that walks such an index and builds a storage key from an element uses the key constructor under which the elements' records are written (role records: RoleKey). A walk that deletes / reads under another constructor leaves the real records untouched - a replaced admin keeps its role record and still passes the permission check.")
 	r.Rule("R17.7", "role predicates decide on what they are asked: every predicate of RoleManager (is*/has*/check* returning bool or a Response) lets each of its parameters feed a branch condition or the returned value (through the calls it delegates to); a predicate that ignores the requested role type or id answers true for roles the caller guard was meant to exclude.")
 	c.c17Predicates()
+	r.Rule("R17.8", "self permission presupposes the object: where a checkPermission helper decides PermissionSelf by comparing the caller with the id argument itself, no entry that creates the object (governance event register) under a caller-chosen id parameter offers PermissionSelf - there self is true for whoever names himself.")
+	c.c17SelfOnCreate()
+	r.Rule("R17.9", "who may call which entry: the permission kinds (Self / Admin / Specific) every guarded dispatchable entry offers at its checkPermission guard - given at the guard or handed to a forwarding helper such as basicGovernance - stay within the reference table frozen in checker/rules/c17_perms.go (confirmed by reading the contracts); an added kind widens who may call the entry and is reported, a dropped kind is not. New entries are not in the table and are judged by R17.2 only.")
+	c.c17PermTable()
 	type site struct {
 		idx, ctor, pos, fn string
 	}
@@ -311,4 +316,66 @@ func (c *Ctx) c17Predicates() {
 			"parameter(s) "+strings.Join(unused, ", ")+" of this role predicate feed no branch condition and no returned value: the question the caller asks (which role type, which appchain, which address) is ignored, so the predicate answers true for identities the guard was meant to exclude")
 	}
 	r.Floor("R17.7", "role predicates of RoleManager", n, 2)
+}
+
+// c17SelfOnCreate: R17.8 - self permission presupposes an object; an entry that creates the object named by a
+// caller-chosen id must not admit "self".
+func (c *Ctx) c17SelfOnCreate() {
+	r := c.R
+	m := c.Contracts()
+	// helpers whose PermissionSelf case compares the regulator with the id parameter itself
+	direct := map[*ssa.Function]bool{}
+	for g, pf := range m.perm {
+		if pf.regIdx < 1 || pf.regIdx >= len(g.Params) {
+			continue
+		}
+		reg, id := g.Params[pf.regIdx], g.Params[pf.regIdx-1]
+		es := core.EqualityEdges(g, func(v ssa.Value) bool { return v == ssa.Value(reg) }, func(v ssa.Value) bool { return v == ssa.Value(id) }, false)
+		direct[g] = es.Len() > 0
+	}
+	creates := func(fn *ssa.Function) bool {
+		found := false
+		for _, f := range core.WithClosures(fn) {
+			for _, b := range f.Blocks {
+				for _, in := range b.Instrs {
+					for _, op := range in.Operands(nil) {
+						if op == nil || *op == nil {
+							continue
+						}
+						// governance.EventRegister, also after constant folding of string(governance.EventRegister)
+						if k, ok := (*op).(*ssa.Const); ok && k.Value != nil && k.Value.Kind() == constant.String && k.Value.ExactString() == `"register"` {
+							found = true
+						}
+					}
+				}
+			}
+		}
+		return found
+	}
+	n := 0
+	for _, fn := range m.funcs {
+		for _, s := range m.permSites(fn) {
+			if !s.permsOK {
+				continue
+			}
+			self := false
+			for _, p := range s.perms {
+				if p == "PermissionSelf" {
+					self = true
+				}
+			}
+			callee := core.StaticCallee(s.call)
+			if !self || !direct[callee] {
+				continue
+			}
+			n++
+			pf := m.perm[callee]
+			id := core.Strip(s.call.Call.Args[pf.regIdx-1])
+			_, chosen := id.(*ssa.Parameter)
+			bad := chosen && creates(fn)
+			r.Check(!bad, "R17.8", shortFn(fn)+": self permission names an existing object", c.P.Pos(s.call.Pos()), "PermissionSelf is not offered by an entry that registers the object named by its own id argument",
+				"the entry creates (EventRegister) the object named by its id parameter and admits PermissionSelf, which this checkPermission decides by caller == id: any account passes by naming itself, so the admin-only registration is open to everybody")
+		}
+	}
+	r.Floor("R17.8", "guard sites offering a direct self permission", n, 1)
 }
